@@ -204,6 +204,15 @@ func init() {
 		}
 		return Value{K: kScalar, T: eq(fv.bytesID(e, args[0]), fv.bytesID(e, args[1])), Type: fv.typeOf(x)}, true
 	}
+	libModelDocs["slices.IndexFunc"] = "result is -1 or an index of the slice (which element it is, is not modelled); the predicate is not executed"
+	libModels["slices.IndexFunc"] = func(fv *FV, e *Env, x *ast.CallExpr, recv *Value, args []Value) (Value, bool) {
+		if len(args) != 2 || args[0].K != kSlice {
+			return Value{}, false
+		}
+		r := fv.freshValue(fv.typeOf(x), "indexfunc")
+		fv.assume(e, and(le(intLit(-1), r.T), lt(r.T, args[0].Len)))
+		return r, true
+	}
 	libModelDocs["slices.Clone"] = "fresh slice with equal contents"
 	libModels["slices.Clone"] = func(fv *FV, e *Env, x *ast.CallExpr, recv *Value, args []Value) (Value, bool) {
 		v := fv.freshValue(fv.typeOf(x), "clone")
